@@ -98,6 +98,8 @@ def check_shifts(mon, x, n, amount, cin, tag):
         mon.cmp('rrx', (x, n, cin), lambda: S.rrx(x, n, cin), R.RRX(x, n, cin), tag)
         mon.cmp('shift_c', (x, n, 'RRX', 1, cin), lambda: S.shift_c(x, n, srtype('RRX'), 1, cin),
                 R.Shift_C(x, n, 'RRX', 1, cin), tag + '|RRX')
+        mon.cmp('shift', (x, n, 'RRX', 1, cin), lambda: S.shift(x, n, srtype('RRX'), 1, cin),
+                R.Shift(x, n, 'RRX', 1, cin), tag + '|RRX')
 
 
 def check_arith(mon, x, y, n, cin, tag):
